@@ -40,6 +40,7 @@ def scenario_of(case):
         particles=(12, 32) if quick else (12, 64),
         kernel_steps=(1, 2),
         checkpoint_modes=("path", "auto", "callback", "none"),
+        hard=bool(case["run_index"] % 2),
     )
 
 
